@@ -149,4 +149,4 @@ def run(ctx, proofs_ok):
     from checks import conc
     q = ctx.tier == "quick"
     conc.run_scenarios(ctx, [("scan-concurrent", 400 if q else 4000, w) for w in ((0, 25) if q else (0, 10, 30, 60))],
-                       "full SCAN / SSCAN iterations while other clients read and write the scanned keys")
+                       "full SCAN / SSCAN iterations while other clients read and write the scanned keys", prog_replay=False)
